@@ -8,6 +8,7 @@ import (
 	"go/constant"
 	"go/token"
 	"go/types"
+	"os"
 	"regexp"
 	"strings"
 )
@@ -184,6 +185,10 @@ func (t *loopTr) shift(at ast.Node, op token.Token, a string, ak lkind, y ast.Ex
 	n := t.shiftCount(y)
 	switch {
 	case op == token.SHL:
+		if os.Getenv("EXTRACT_SAFE_SHL") != "" {
+			// same value (Go.shl_eq), evaluated without the huge intermediate Nat; only for the translator's own test
+			return "(Go.shl " + a + " " + n + ")"
+		}
 		return "(" + a + " <<< " + n + ")"
 	case ak.isSigned():
 		return "(BitVec.sshiftRight " + a + " " + n + ")"
@@ -354,6 +359,9 @@ func (t *loopTr) call(x *ast.CallExpr) (string, lkind) {
 		sig := o.Type().(*types.Signature)
 		if sig.Results().Len() != 1 {
 			t.fail(x, "call of a function with %d results", sig.Results().Len())
+		}
+		if csig := loopSigs[sigKey(o.Pkg().Path(), o.Name())]; csig != nil {
+			t.checkCapArgs(x, csig)
 		}
 		parts := []string{o.Name()}
 		for _, a := range x.Args {
